@@ -38,13 +38,16 @@ struct Obs {
     out: [Outcome; 2],
     logs: [Vec<u64>; 2],
     detail: [String; 2],
+    /// executed steps per store
+    steps: [u64; 2],
 }
 
-fn run_on<D: Store + Mk>(src: &str, input: &V, resolves: &HashMap<u64, V>) -> (Outcome, Vec<u64>, String) {
+fn run_on<D: Store + Mk>(src: &str, input: &V, resolves: &HashMap<u64, V>) -> (Outcome, Vec<u64>, String, u64) {
     let cfg = RunCfg { max_steps: 20_000, host: Host { mode: HostMode::Script, resolve: resolves.clone(), apply_accept: false, defer_accept: false } };
     let run = real::<D>(src, input, &cfg);
     let log = resolve_log(&run.m);
-    match &run.outcome {
+    let n = run.steps;
+    let (a, b, c) = match &run.outcome {
         RealOutcome::Value(Ok(v)) => (Outcome::Value(v.show()), log, v.show()),
         RealOutcome::Value(Err(e)) => (Outcome::Value(format!("<unreadable {}>", e)), log, e.clone()),
         RealOutcome::CompileFail(Fail::Panic(st, m, loc)) | RealOutcome::RunFail(Fail::Panic(st, m, loc)) => (Outcome::Panic(format!("{} {}", stage_name(st), loc)), log, m.clone()),
@@ -52,14 +55,15 @@ fn run_on<D: Store + Mk>(src: &str, input: &V, resolves: &HashMap<u64, V>) -> (O
         RealOutcome::RunFail(Fail::Err(_, e)) => (Outcome::RunError, log, e.clone()),
         RealOutcome::StepLimit => (Outcome::StepLimit, log, String::new()),
         RealOutcome::SetupFail(s) => (Outcome::Setup, log, s.clone()),
-    }
+    };
+    (a, b, c, n)
 }
 
 fn observe(src: &str, input: &V, resolves: &HashMap<u64, V>) -> Obs {
     let tree = lex_g(src).ok().and_then(|t| parse_g(&t).ok()).and_then(|p| actual_tree(&p).ok());
-    let (o1, l1, d1) = run_on::<Simple>(src, input, resolves);
-    let (o2, l2, d2) = run_on::<Basic>(src, input, resolves);
-    Obs { tree, out: [o1, o2], logs: [l1, l2], detail: [d1, d2] }
+    let (o1, l1, d1, n1) = run_on::<Simple>(src, input, resolves);
+    let (o2, l2, d2, n2) = run_on::<Basic>(src, input, resolves);
+    Obs { tree, out: [o1, o2], logs: [l1, l2], detail: [d1, d2], steps: [n1, n2] }
 }
 
 pub fn strip_effects(t: &Tree) -> Tree {
@@ -364,8 +368,9 @@ fn effect_free(e: &E) -> bool {
 
 fn wrap(n: &E) -> Option<E> {
     match n {
-        // a property name is not an operand; a sequence cannot be put in brackets; reapply restarts
-        E::Prop(_) | E::Seq(..) | E::Reapply(_) => None,
+        // a property name is not an operand; a sequence cannot be put in brackets (a restart can: `(^~ x)` still
+        // restarts the enclosing expression)
+        E::Prop(_) | E::Seq(..) => None,
         _ => Some(E::Group(n.clone().b())),
     }
 }
@@ -446,6 +451,16 @@ fn compare(kind: &str, chain: &str, orig_src: &str, new_src: &str, input: &V, ba
     // ---- result and host calls, per store
     for i in 0..2 {
         let store = ["simple", "basic"][i];
+        // a program that finished in a few steps and, rewritten, is still running after 20 000 (at least 40 times as
+        // many): a layout rewrite adds a handful of steps, not a loop - decided on logical steps, not on time
+        if matches!(base.out[i], Outcome::Value(_)) && obs.out[i] == Outcome::StepLimit && base.steps[i] * 40 <= obs.steps[i] {
+            acc.violation(
+                format!("result|no-longer-terminates|{}|{}", kind, store),
+                format!("[{}] {} turns {:?} into {:?} with $ = {}: the program finished in {} steps, the rewritten one is still running after {}", store, chain, orig_src, new_src, input.show(), base.steps[i], obs.steps[i]),
+                payload(),
+            );
+            return;
+        }
         if matches!(base.out[i], Outcome::StepLimit | Outcome::Setup) || matches!(obs.out[i], Outcome::StepLimit | Outcome::Setup) {
             acc.count("budget_skipped");
             continue;
@@ -698,8 +713,19 @@ pub fn run(ctx: &Ctx) -> (Acc, String, bool) {
     let cfg = GenCfg::default();
     let scripts = crate::corpus::repo_scripts();
     let script_total = scripts.len() as u64;
-    let acc = run_cases(ctx, small_total + random_total + script_total, |i, acc| {
+    // the bounded restart loops of C01 (restart from a branch, through brackets, from a logical operand, from the
+    // else position, from a nested expression): rewrites around a restart must not change where it restarts
+    let loops: Vec<E> = (0..9 * 8).map(|j| crate::ast::loop_program((j / 8) as i32, (j % 8) as usize)).collect();
+    let loop_total = loops.len() as u64;
+    let acc = run_cases(ctx, small_total + random_total + script_total + loop_total, |i, acc| {
         let mut r = Rng::for_case(seed, i);
+        if i >= small_total + random_total + script_total {
+            let e = &loops[(i - small_total - random_total - script_total) as usize];
+            check_program(e, &V::Unit, &resolves, &mut r, true, 8, acc);
+            acc.nontrivial += 1;
+            acc.count("restart_loops_rewritten");
+            return;
+        }
         if i >= small_total + random_total {
             let (name, text) = &scripts[(i - small_total - random_total) as usize];
             check_text(text.trim_end(), &V::Unit, &resolves, &mut r, ctx.pick(20, 400), acc);
@@ -726,7 +752,7 @@ pub fn run(ctx: &Ctx) -> (Acc, String, bool) {
         }
     });
     let rule = format!(
-        "every core-language AST of <= {} nodes ({} programs) and {} random programs (depth <= 5); on each: every single application, at every position, of: widen a blank run with space / tab / several, blank to tab, annotation in a blank run, comment line in a blank run, remove a blank run, insert a blank / an annotation between adjacent tokens, trailing blanks before a line break and at the end, blanks on the empty line of a blank-line separator, comment line after a line break and at the start (text rewrites admitted only when the reference lexer sees the same significant tokens and, for the gated ones, the reference parser the same tree); parentheses around every operand; an effect-free side-effect block added after every value or group, and before every plain operand that follows a binary operator or a comma; effect-free blocks dropped; plus random combinations of 2..7 rewrites; the text rewrites (single, and combinations) also on every script under the repository's tests/scripts. Parse tree (modulo trivia / added groups / added blocks), final value on both stores and host resolve sequence are compared with the unrewritten program's.",
+        "every core-language AST of <= {} nodes ({} programs) and {} random programs (depth <= 5) and the 72 bounded restart loops of C01; on each: every single application, at every position, of: widen a blank run with space / tab / several, blank to tab, annotation in a blank run, comment line in a blank run, remove a blank run, insert a blank / an annotation between adjacent tokens, trailing blanks before a line break and at the end, blanks on the empty line of a blank-line separator, comment line after a line break and at the start (text rewrites admitted only when the reference lexer sees the same significant tokens and, for the gated ones, the reference parser the same tree); parentheses around every operand; an effect-free side-effect block added after every value or group, and before every plain operand that follows a binary operator or a comma; effect-free blocks dropped; plus random combinations of 2..7 rewrites; the text rewrites (single, and combinations) also on every script under the repository's tests/scripts. Parse tree (modulo trivia / added groups / added blocks), final value on both stores and host resolve sequence are compared with the unrewritten program's.",
         k, small_total, random_total
     );
     (acc, rule, false)
